@@ -33,7 +33,9 @@ LEVEL_TEXT = (
     "Fault enumeration: command kind x exit kind x lifecycle point is enumerated completely in both tiers (3 x (1 + 9 x 5) = "
     "138 combinations). Quick: each combination once with non-failing hooks {none, ok, noisy} and artifacts dir / database / "
     "lock file chosen by a seeded greedy covering array (all factor pairs plus selected triples), then about 30 rows with a "
-    "failing pre- or post-hook until every pair with a failing hook is covered (about 166 runs). Thorough: every combination "
+    "failing pre- or post-hook until every pair with a failing hook is covered (about 166 runs), plus 6 runs (thorough: 48) on a "
+    "shared database whose write lock a second writer (the harness, stdlib sqlite3, BEGIN IMMEDIATE) holds for 2.5-4 s from "
+    "right before the command finishes. Thorough: every combination "
     "x all 8 resource settings x 5 hook pairs (a rotating diagonal of the non-failing 3x3 hook square, one failing pre-hook, "
     "one failing post-hook; 5520 runs; VERIF_C15_FULL=1 runs all 25 hook pairs). One fault per run; held means held for the "
     "runs executed. A child that exceeds the watchdog is re-run; it is a finding only if it hangs again and the thread stacks "
@@ -51,7 +53,8 @@ RULE = (
     "super().setup(), main, teardown before/after super().teardown()}) x pre-hook x post-hook in {none, ok, fail (exit 3, "
     "silent), failnoisy (output + exit 1), noisy (>64 KiB output)} x artifacts dir on/off x database on/off x lock file "
     "on/off; kind x exit x point is the full product, the other factors follow a seeded covering array (quick) or the full "
-    "resource product with 5 of the 25 hook pairs (thorough); non-trivial = anything but a fault-free run without hooks and "
+    "resource product with 5 of the 25 hook pairs (thorough); a separate family adds (kind) x (8 endings) with the database on "
+    "and a second writer holding the database's write lock while the command finishes; non-trivial = anything but a fault-free run without hooks and "
     "resources; distinct = distinct case tuples"
 )
 ASSUMPTIONS = [
@@ -62,6 +65,9 @@ ASSUMPTIONS = [
     "whether the post-hook runs after a real SIGINT is not decided (the statement does not say)",
     "one fault per run; database-open failures are not injected; dumpcap is disabled",
     "config equality is decided on the JSON dump of the re-created CONFIG_TYPE (TargetURI has no __eq__)",
+    "the database may be shared with other writers: a write lock held by somebody else for up to 6 s (the handler's busy timeout is 10 s) "
+    "must not cost the run its end time / exit code; a contended run is judged as such only if the measured lock time was 1.5..6 s, "
+    "and not judged at all if the harness held the lock longer",
 ]
 EXHAUSTIVE = {"quick": False, "thorough": False}
 EXHAUSTIVE_NOTE = "exhaustive sub-space in both tiers: command kind x exit kind x lifecycle point (138 combinations)"
@@ -83,6 +89,18 @@ SIGINT_READY_TIMEOUT = 20.0
 STACK_DUMP_BEFORE_KILL = 8.0
 RETRY_TIMEOUT = 25.0
 CLASS_NAMES = {"script": "C15Script", "scanner": "C15Scanner", "uds": "C15UDSScanner"}
+# ---- "second writer on the shared database" family (spec["contend"] = seconds the write lock is held)
+# The harness holds sqlite's write lock (BEGIN IMMEDIATE) from right before the command finishes for a few seconds, far
+# below the 10 s the database handler is prepared to wait. A run is judged as contended only if the lock was really held
+# for CONTEND_MIN_OVERLAP..CONTEND_MAX_HELD seconds; if it was held longer than that, nothing about the run is judged.
+OTHER_WRITER = "vf.checks.c15.OtherWriter"
+CONTEND_HOLDS = [2.5, 3.0, 3.5, 4.0]
+CONTEND_MIN_OVERLAP = 1.5
+CONTEND_MAX_HELD = 6.0
+CONTEND_LOCK_TIMEOUT = 3.0
+CONTEND_ENDS = [("return", "none"), ("exit3", "main"), ("connerr", "main"), ("runtime", "teardown_post"), ("kbdint", "teardown_pre"),
+                ("sigint", "main"), ("udserr", "setup_post"), ("exit1", "setup_pre")]
+CONTEND_KEY = "run_meta/end_time-null/database-locked-by-other-writer"
 
 HOOK_SH = r"""#!/bin/sh
 # C15 hook: dump the environment, probe the lock file, then behave as told by $1
@@ -232,13 +250,36 @@ def gen_cases(tier: str, seed: int) -> list[dict[str, Any]]:
     return gen_quick(seed) if tier == "quick" else gen_thorough(seed)
 
 
+def gen_contend(tier: str, seed: int, first_id: int) -> list[dict[str, Any]]:
+    """Runs on a database that a second writer holds locked while the command finishes: quick 6 (every command kind
+    twice, six different endings), thorough every kind x all 8 endings x 2. Database always on, hooks never failing."""
+    import random
+
+    rng = random.Random(f"C15/contend/{tier}/{seed}")
+    if tier == "quick":
+        ends = rng.sample(CONTEND_ENDS, 6)
+        triples = [(KINDS[i % 3], e, p) for i, (e, p) in enumerate(ends)]
+    else:
+        triples = [(k, e, p) for k in KINDS for e, p in CONTEND_ENDS] * 2
+    rows = []
+    for i, (k, e, p) in enumerate(triples):
+        rows.append({"kind": k, "exit": e, "point": p, "pre": rng.choice(["none", "ok"]), "post": rng.choice(["none", "ok", "noisy"]),
+                     "art": rng.random() < 0.7, "db": True, "lock": rng.random() < 0.5, "contend": CONTEND_HOLDS[(i + seed) % len(CONTEND_HOLDS)],
+                     "id": first_id + i})
+    return rows
+
+
 def shards(tier: str, seed: int) -> list[dict[str, Any]]:
     n = 16
     cases = gen_cases(tier, seed)
     missing = uncovered_pairs(cases)
     if missing:
         raise RuntimeError(f"C15 covering array misses {len(missing)} pairs, e.g. {missing[:3]}")
-    return [{"tier": tier, "seed": seed, "cases": cases[i::n]} for i in range(n)]
+    out = [{"tier": tier, "seed": seed, "cases": cases[i::n]} for i in range(n)]
+    # the contended runs cost real seconds: spread them over the shards and start them first, next to the other children
+    for j, c in enumerate(gen_contend(tier, seed, len(cases))):
+        out[(j * 5 + seed) % n]["cases"].insert(0, c)
+    return out
 
 
 def required_reach(tier: str) -> dict[str, int]:
@@ -253,6 +294,9 @@ def required_reach(tier: str) -> dict[str, int]:
         "hook.env_checked": 20, "lock.probed_during_run": 10, "lock.probed_after_exit": 20, "fault.point_reached": 60,
         "config.recreated": 20, "ecu.requests_answered": 5,
     })
+    # second writer on the shared database: runs whose end really overlapped the foreign write lock, and (evidence that the
+    # lock is the one the command needs) runs that could only finish after the lock was released
+    need.update({"contend.judged": 2 if tier == "quick" else 12, "contend.finished_only_after_release": 2 if tier == "quick" else 12})
     return need
 
 
@@ -408,6 +452,13 @@ class Injector:
         log.info(marker(spec))
         self.event("fault")
         e = spec["exit"]
+        if spec.get("contend") and e != "sigint":
+            # hold point: the parent takes the database's write lock now and tells us to go on (a real SIGINT is the go itself)
+            (self.out / "ready-db").write_text(str(os.getpid()))
+            limit = time.monotonic() + SIGINT_READY_TIMEOUT + 8
+            while not (self.out / "db-locked").exists() and time.monotonic() < limit:
+                await asyncio.sleep(0.005)
+            self.event("contend_go" if (self.out / "db-locked").exists() else "contend_go_missed")
         if e == "return":
             return
         if e == "exit0":
@@ -571,6 +622,27 @@ def zstd_closed(path: Path) -> tuple[bool, int]:
     return True, total
 
 
+def other_writer_lock(db: Path) -> tuple[sqlite3.Connection | None, str | None]:
+    """A second writer on the shared database: open it with the stdlib module and start a write transaction."""
+    if not db.exists():
+        return None, "database file does not exist yet"
+    con = None
+    try:
+        con = sqlite3.connect(str(db), timeout=CONTEND_LOCK_TIMEOUT, isolation_level=None, check_same_thread=False)
+        con.execute("BEGIN IMMEDIATE")
+        now = time.time()
+        con.execute("INSERT INTO run_meta(script, config, start_time, start_timezone, end_time, end_timezone, exit_code, path, exclude) "
+                    "VALUES (?, '{}', ?, 'UTC', ?, 'UTC', 0, 'None', FALSE)", (OTHER_WRITER, now, now))
+        return con, None
+    except Exception as e:  # noqa: BLE001
+        if con is not None:
+            try:
+                con.close()
+            except Exception:  # noqa: BLE001
+                pass
+        return None, repr(e)
+
+
 def execute(spec: dict[str, Any], rundir: Path, timeout: float = CHILD_TIMEOUT) -> dict[str, Any]:
     import fcntl
 
@@ -596,13 +668,15 @@ def execute(spec: dict[str, Any], rundir: Path, timeout: float = CHILD_TIMEOUT) 
             [PY, "-m", "vf.checks.c15", "--child", str(paths["spec"])],
             cwd=ROOT, env=env, stdin=subprocess.DEVNULL, stdout=so, stderr=se, start_new_session=True,
         )
+        hold = float(spec.get("contend") or 0)
+        gate = "ready" if spec["exit"] == "sigint" else ("ready-db" if hold else None)
         try:
-            if spec["exit"] == "sigint":
+            if gate is not None:
                 deadline = time.monotonic() + SIGINT_READY_TIMEOUT
-                while time.monotonic() < deadline and proc.poll() is None and not (paths["out"] / "ready").exists():
+                while time.monotonic() < deadline and proc.poll() is None and not (paths["out"] / gate).exists():
                     time.sleep(0.01)
-                if proc.poll() is None and (paths["out"] / "ready").exists():
-                    if spec["lock"]:
+                if proc.poll() is None and (paths["out"] / gate).exists():
+                    if spec["exit"] == "sigint" and spec["lock"]:
                         # second process: the lock must be held while the command runs
                         fd = os.open(paths["lock"], os.O_RDONLY)
                         try:
@@ -613,9 +687,41 @@ def execute(spec: dict[str, Any], rundir: Path, timeout: float = CHILD_TIMEOUT) 
                             obs["lock_parent_probe_during_run"] = "held"
                         finally:
                             os.close(fd)
-                    time.sleep(0.05)
-                    proc.send_signal(signal.SIGINT)
-                    obs["sigint_delivered"] = True
+                    con = None
+                    if hold:
+                        con, why = other_writer_lock(paths["db"])
+                        t_lock = time.monotonic()
+                        obs["contend"] = {"hold": hold, "locked": con is not None, "lock_error": why}
+                    try:
+                        if spec["exit"] == "sigint":
+                            time.sleep(0.05)
+                            proc.send_signal(signal.SIGINT)
+                            obs["sigint_delivered"] = True
+                        else:
+                            (paths["out"] / "db-locked").write_text("go")
+                        t_go = time.monotonic()
+                        if con is not None:
+                            # never longer than the nominal hold on purpose; what really happened is measured below
+                            exited_at = None
+                            while time.monotonic() < t_go + hold:
+                                if exited_at is None and proc.poll() is not None:
+                                    exited_at = time.monotonic()
+                                time.sleep(0.01)
+                            if exited_at is None and proc.poll() is not None:
+                                exited_at = time.monotonic()
+                            obs["contend"]["child_exited_while_locked_after"] = None if exited_at is None else round(exited_at - t_go, 3)
+                    finally:
+                        if con is not None:
+                            released = False
+                            try:
+                                con.execute("COMMIT")
+                                released = True
+                            except Exception as e:  # noqa: BLE001
+                                obs["contend"]["release_error"] = repr(e)
+                            finally:
+                                con.close()  # closing ends the transaction in any case
+                            t_rel = time.monotonic()
+                            obs["contend"].update({"committed": released, "held": round(t_rel - t_lock, 3), "overlap": round(t_rel - t_go, 3)})
             try:
                 proc.wait(timeout=timeout)
             except subprocess.TimeoutExpired:
@@ -711,7 +817,9 @@ def execute(spec: dict[str, Any], rundir: Path, timeout: float = CHILD_TIMEOUT) 
             try:
                 cur = con.execute("SELECT id, script, config, start_time, end_time, end_timezone, exit_code, path FROM run_meta")
                 cols = [c[0] for c in cur.description]
-                obs["run_meta"] = [dict(zip(cols, row)) for row in cur.fetchall()]
+                allrows = [dict(zip(cols, row)) for row in cur.fetchall()]
+                obs["run_meta"] = [r for r in allrows if r["script"] != OTHER_WRITER]
+                obs["run_meta_other_writer_rows"] = len(allrows) - len(obs["run_meta"])
             finally:
                 con.close()
         except sqlite3.Error as e:
@@ -783,6 +891,19 @@ def judge(spec: dict[str, Any], obs: dict[str, Any], rundir: Path, reach: Any = 
         return [(key, what)]
     if not obs["started"]:
         return [("harness/child-did-not-start", f"child rc={rc}: {obs['stderr'][-300:]}")]
+    # ---- second writer on the shared database: was the end of this run really contended, and for how long?
+    contended = False
+    if spec.get("contend"):
+        c = obs.get("contend") or {}
+        if c.get("held", 0) > CONTEND_MAX_HELD:
+            # the harness itself held the lock for too long (stalled machine): nothing this run shows can be blamed on the command
+            hit("contend.discarded_held_too_long")
+            return []
+        contended = bool(c.get("locked")) and c.get("overlap", 0) >= CONTEND_MIN_OVERLAP
+        hit("contend.judged" if contended else "contend.not_exercised")
+        if contended:
+            hit(f"contend.kind.{kind}")
+            hit("contend.finished_only_after_release" if c.get("child_exited_while_locked_after") is None else "contend.finished_while_locked")
 
     hit("fault.point_reached", 1 if "fault" in events else 0)
     # ---- process exit status
@@ -898,7 +1019,12 @@ def judge(spec: dict[str, Any], obs: dict[str, Any], rundir: Path, reach: Any = 
             row = rows[0]
             reached = "teardown_super_done" in events and kind in ("scanner", "uds")
             where = "scanner-teardown" if reached else ("scanner-teardown-entered" if "teardown_super_enter" in events and kind != "script" else "other")
-            if row["end_time"] is None:
+            if row["end_time"] is None and contended:
+                c = obs["contend"]
+                v.append((CONTEND_KEY, f"run_meta.end_time is NULL (exit_code {row['exit_code']!r}) after the process ended with {rc}: another writer held the "
+                          f"shared database's write lock for {c['held']} s ({c['overlap']} s of it after the command was told to finish)"
+                          + ("" if c.get("child_exited_while_locked_after") is None else f" and the process ended {c['child_exited_while_locked_after']} s into it, without waiting for the lock")))
+            elif row["end_time"] is None:
                 v.append((f"run_meta/end_time-null/{where}", f"run_meta.end_time is NULL (exit_code {row['exit_code']!r}) after the process ended with {rc}"))
             else:
                 if row["exit_code"] != eff:
@@ -946,7 +1072,7 @@ def hang_blame(obs: dict[str, Any]) -> str:
 
 def summarize(obs: dict[str, Any]) -> dict[str, Any]:
     s = {k: obs.get(k) for k in ("rc", "wall", "events", "returned", "escaped", "sigint_delivered", "watchdog", "lock_at_fault",
-                                 "lock_after_entry_point", "lock_after_exit", "artifact_dirs", "run_meta", "log", "hook_pre_lock", "hook_post_lock")}
+                                 "lock_after_entry_point", "lock_after_exit", "artifact_dirs", "run_meta", "log", "hook_pre_lock", "hook_post_lock", "contend", "run_meta_other_writer_rows")}
     s["meta"] = (obs.get("meta_raw") or "")[:600] or None
     s["stderr_tail"] = obs.get("stderr", "")[-1500:]
     for hv in ("pre", "post"):
@@ -958,7 +1084,7 @@ def summarize(obs: dict[str, Any]) -> dict[str, Any]:
 
 
 def case_ident(spec: dict[str, Any]) -> tuple[Any, ...]:
-    return tuple(spec[f] for f in FACTORS)
+    return tuple(spec[f] for f in FACTORS) + (("contend", spec["contend"]) if spec.get("contend") else ())
 
 
 def process_case(ctx: Any, spec: dict[str, Any], base: Path, lock: Any) -> dict[str, Any] | None:
@@ -1027,7 +1153,7 @@ def process_case(ctx: Any, spec: dict[str, Any], base: Path, lock: Any) -> dict[
                    None if rm is None else (rm["end_time"] is None, rm["exit_code"]), obs["hook_pre_env"] is not None,
                    obs["hook_post_env"] is not None, tuple(sorted(k for k, _ in found))))
         ctx.reach(f"outcome.rc={obs['rc']}")
-        ctx.sample({"case": {f: spec[f] for f in FACTORS}, "rc": obs["rc"], "meta_exit_code": meta_code, "events": obs["events"],
+        ctx.sample({"case": {f: spec[f] for f in FACTORS + (["contend"] if spec.get("contend") else [])}, "rc": obs["rc"], "meta_exit_code": meta_code, "events": obs["events"],
                     "run_meta": None if rm is None else {"end_time_null": rm["end_time"] is None, "exit_code": rm["exit_code"]},
                     "keys": sorted(k for k, _ in found)})
         for key, what in found:
